@@ -866,22 +866,50 @@ func (g *G) forStmt(depth int) {
 		hdr += "range " + g.expr(Map(g.randType(0)), 1)
 		vt = Str
 	}
+	// now and then the loop variable takes the name of an outer variable of ANOTHER
+	// type and the loop is left by break: whatever follows the loop must see the outer one again
+	var outer *variable
+	if named && !g.o.NoShadow && g.r.Chance(0.12) {
+		for _, sc := range g.scopes {
+			for _, ov := range sc {
+				if !ov.ro && !ov.ty.Eq(vt) && (ov.ty.K == "num" || ov.ty.K == "string" || ov.ty.K == "bool") && outer == nil && g.r.Chance(0.5) {
+					outer = ov
+				}
+			}
+		}
+		if outer != nil {
+			hdr = strings.Replace(hdr, "for "+v+" := ", "for "+outer.name+" := ", 1)
+			v = outer.name
+			outer.used = true
+		}
+	}
 	g.emit("%s", hdr)
 	g.inLoop++
 	g.indent++
 	g.push()
 	if named {
-		g.declare(&variable{name: v, ty: vt, ro: true})
+		g.declare(&variable{name: v, ty: vt, ro: true, used: outer != nil})
 	}
 	n := g.r.Range(1, 3)
 	for i := 0; i < n; i++ {
 		g.stmt(depth + 1)
+	}
+	if outer != nil {
+		g.emit("print \"loopvar\" %s", v)
+		g.emit("if %s", g.expr(Bool, 1))
+		g.indent++
+		g.emit("break")
+		g.indent--
+		g.emit("end")
 	}
 	g.shadowLate()
 	g.closeScope()
 	g.indent--
 	g.inLoop--
 	g.emit("end")
+	if outer != nil {
+		g.emit("print \"after loop\" %s (typeof %s) %s", outer.name, outer.name, g.expr(outer.ty, 1))
+	}
 }
 
 func (g *G) funcDef(f *fn) {
